@@ -1,185 +1,161 @@
-"""Template configuration of CellParser (cellparser.py): the `undefined` policy of BOTH Jinja
-environments (read from the source with `ast` AND from the live objects — they must agree), the
-delimiters of both environments, the registered filters, the literals of the wrapper
-`parse_as_string` (`{`, `{@`, `@}`, the slice offset of the nested check) and whether the
-native result is checked for being an `Undefined` object."""
+"""Template configuration of CellParser (cellparser.py): the `undefined` policy and the delimiters of BOTH
+Jinja environments, the registered filters, whether a native result that is an `Undefined` object is an
+error, and the literals of the wrapper `parse_as_string` (`{`, `{@`, `@}`, the slice offset of the
+nested check).
+
+HOW IT READS (DESIGN §2.5a)
+* policies, undefined classes, delimiters, filters: RUNTIME VALUES of a live `CellParser()` (its `env` /
+  `native_env`), cross-checked with BEHAVIOUR: the policy is `strict` only if the configured class is a
+  `StrictUndefined` AND rendering a template that names an undefined variable fails; the "live name" is
+  the class of the object a template of that environment actually produces for an undefined name.
+  How / where the environments are constructed does not matter.  Filters are a set: sorted.
+* nativeUndefinedCheck: BEHAVIOUR — `parse_as_string("{@ <undefined name> @}", <non-empty context>)`
+  reports a problem (a record ≥ ERROR on the main logger, or an exception) instead of handing the
+  `Undefined` object back.
+* wrapper literals: SOURCE STRUCTURE located BY CONTENT — every method of `CellParser` is searched for the
+  `.startswith(c)` / `.endswith(c)` / `x[k:].find(c)` / `c not in x` tests (constants in place or hoisted
+  to class / module level); they are intermediate decisions no caller can tell apart one by one.
+"""
 import ast
+import logging
 
-from ..extract_tables import _find_class, _find_func, _parse, lean_str, lean_str_list
-
-
-def _env_calls(init: ast.FunctionDef):
-    """{attr: Call} for `self.<attr> = <Something>Environment(...)` in __init__"""
-    out = {}
-    for n in ast.walk(init):
-        if isinstance(n, ast.Assign) and len(n.targets) == 1 and isinstance(n.targets[0], ast.Attribute) \
-                and isinstance(n.targets[0].value, ast.Name) and n.targets[0].value.id == "self" \
-                and isinstance(n.value, ast.Call) and isinstance(n.value.func, ast.Name) \
-                and n.value.func.id.endswith("Environment"):
-            out[n.targets[0].attr] = n.value
-    return out
+from .. import t1lib
+from ..extract_tables import _find_class, _parse, lean_str, lean_str_list
 
 
-def _kw(call: ast.Call, name: str):
-    for k in call.keywords:
-        if k.arg == name:
-            return k.value
-    return None
-
-
-def _filters(init: ast.FunctionDef, attr: str):
-    """names registered by `self.<attr>.filters["name"] = …`, in source order"""
-    out = []
-    for n in init.body:
-        if isinstance(n, ast.Assign) and len(n.targets) == 1 and isinstance(n.targets[0], ast.Subscript):
-            t = n.targets[0]
-            v = t.value
-            if isinstance(v, ast.Attribute) and v.attr == "filters" and isinstance(v.value, ast.Attribute) \
-                    and v.value.attr == attr and isinstance(t.slice, ast.Constant):
-                out.append(t.slice.value)
-    return out
-
-
-def _classify(cls) -> str:
+def _classify(env, produces_error: bool) -> str:
     import jinja2
 
-    if isinstance(cls, type) and issubclass(cls, jinja2.StrictUndefined):
+    cls = env.undefined
+    if isinstance(cls, type) and issubclass(cls, jinja2.StrictUndefined) and produces_error:
         return "strict"
-    if cls is jinja2.Undefined:
+    if cls is jinja2.Undefined and not produces_error:
         return "lenient"
     return "other"
 
 
-def _tests_undefined(body, var=None):
-    """name X such that `body` contains `isinstance(X, Undefined)` and a `str(X)` use"""
-    wrap = ast.Module(body=list(body), type_ignores=[])
-    tested = {n.args[0].id for n in ast.walk(wrap)
-              if isinstance(n, ast.Call) and isinstance(n.func, ast.Name) and n.func.id == "isinstance" and len(n.args) == 2
-              and isinstance(n.args[0], ast.Name) and isinstance(n.args[1], ast.Name) and n.args[1].id == "Undefined"}
-    used = {n.args[0].id for n in ast.walk(wrap)
-            if isinstance(n, ast.Call) and isinstance(n.func, ast.Name) and n.func.id == "str" and n.args and isinstance(n.args[0], ast.Name)}
-    both = tested & used
-    return both if var is None else (var in both)
+def _undefined_object(env, start, end):
+    """the object a template of `env` gets when it looks an undefined name up"""
+    t = env.from_string(f"{start} t1_probe_nope {end}")
+    return t.new_context({}).resolve_or_missing("t1_probe_nope"), env.undefined(name="t1_probe_nope")
 
 
-def _native_check(mod: ast.Module, func: ast.FunctionDef) -> bool:
-    """inside the `try:` that renders, before the `return`: the rendered result is tested for being
-    an `Undefined` object and used with `str(...)` (which raises for StrictUndefined) — either in
-    place (`if isinstance(result, Undefined): str(result)`) or through a module-level helper called
-    with the result (`_raise_if_undefined_inside(result)`)."""
-    helpers = {}
-    for n in mod.body:
-        if isinstance(n, ast.FunctionDef) and n.args.args:
-            if _tests_undefined(n.body, n.args.args[0].arg):
-                helpers[n.name] = n
-    for t in ast.walk(func):
-        if not isinstance(t, ast.Try):
-            continue
-        rendered = None
-        for n in t.body:
-            if isinstance(n, ast.Assign) and len(n.targets) == 1 and isinstance(n.targets[0], ast.Name) \
-                    and any(isinstance(c, ast.Attribute) and c.attr == "render" for c in ast.walk(n.value)):
-                rendered = n.targets[0].id
-                continue
-            if rendered is None:
-                continue
-            if isinstance(n, ast.Return):
-                break
-            if isinstance(n, ast.If) and _tests_undefined([n], rendered):
-                return True
-            if isinstance(n, ast.Expr) and isinstance(n.value, ast.Call) and isinstance(n.value.func, ast.Name) \
-                    and n.value.func.id in helpers and n.value.args and isinstance(n.value.args[0], ast.Name) \
-                    and n.value.args[0].id == rendered:
-                return True
+def _fails(fn) -> bool:
+    try:
+        r = fn()
+        import jinja2
+
+        if isinstance(r, jinja2.Undefined):
+            str(r)        # a StrictUndefined raises when used
+    except Exception:  # noqa: BLE001
+        return True
     return False
 
 
-def _wrapper_literals(func: ast.FunctionDef):
+class _Capture(logging.Handler):
+    def __init__(self):
+        super().__init__(level=logging.DEBUG)
+        self.records = []
+
+    def emit(self, record):
+        self.records.append(record)
+
+
+def native_undefined_check(cp) -> bool:
+    lg = t1lib.load("rpft.logger.logger")
+    logger = lg.get_logger()
+    cap = _Capture()
+    logger.addHandler(cap)
+    raised = False
+    try:
+        try:
+            cp.parse_as_string(f"{cp.native_env.variable_start_string} t1_probe_nope {cp.native_env.variable_end_string}", {"t1_defined": 1})
+        except BaseException:  # noqa: BLE001  (SystemExit of a ShutdownHandler included)
+            raised = True
+    finally:
+        logger.removeHandler(cap)
+    return raised or any(x.levelno >= logging.ERROR for x in cap.records)
+
+
+def _wrapper_literals(cls_ast, resolve):
     starts, ends, finds, notin, offs = [], [], [], [], []
-    for n in ast.walk(func):
-        if isinstance(n, ast.Call) and isinstance(n.func, ast.Attribute) and n.args and isinstance(n.args[0], ast.Constant):
-            if n.func.attr == "startswith":
-                starts.append(n.args[0].value)
-            elif n.func.attr == "endswith":
-                ends.append(n.args[0].value)
-            elif n.func.attr == "find":
-                finds.append(n.args[0].value)
-                v = n.func.value
-                if isinstance(v, ast.Subscript) and isinstance(v.slice, ast.Slice) and isinstance(v.slice.lower, ast.Constant):
-                    offs.append(v.slice.lower.value)
-        if isinstance(n, ast.Compare) and len(n.ops) == 1 and isinstance(n.ops[0], ast.NotIn) and isinstance(n.left, ast.Constant):
-            notin.append(n.left.value)
+
+    def const(node, fn):
+        try:
+            v = resolve(node, fn)
+        except KeyError:
+            return None
+        return v if isinstance(v, str) else None
+
+    for fn in t1lib.functions(cls_ast):
+        nested = {id(x) for g in t1lib.functions(fn) if g is not fn for x in ast.walk(g)}
+        for n in ast.walk(fn):
+            if id(n) in nested:
+                continue
+            if isinstance(n, ast.Call) and isinstance(n.func, ast.Attribute) and n.args:
+                c = const(n.args[0], fn)
+                if c is None:
+                    continue
+                if n.func.attr == "startswith":
+                    starts.append(c)
+                elif n.func.attr == "endswith":
+                    ends.append(c)
+                elif n.func.attr in ("find", "index"):
+                    finds.append(c)
+                    v = n.func.value
+                    if isinstance(v, ast.Subscript) and isinstance(v.slice, ast.Slice) and v.slice.lower is not None:
+                        try:
+                            offs.append(resolve(v.slice.lower, fn))
+                        except KeyError:
+                            pass
+            if isinstance(n, ast.Compare) and len(n.ops) == 1 and isinstance(n.ops[0], ast.NotIn):
+                c = const(n.left, fn)
+                if c is not None:
+                    notin.append(c)
     assert len(starts) == len(ends) == len(finds) == len(notin) == len(offs) == 1, (starts, ends, finds, notin, offs)
     assert isinstance(offs[0], int)
     return starts[0], ends[0], finds[0], notin[0], offs[0]
 
 
 def tables() -> str:
-    import importlib
-
-    mod_ast = _parse("parsers/common/cellparser.py")
-    cls = _find_class(mod_ast, "CellParser")
-    init = _find_func(cls, "__init__")
-    calls = _env_calls(init)
-    assert set(calls) == {"env", "native_env"}, sorted(calls)
-
-    def undefined_name(call):
-        v = _kw(call, "undefined")
-        if v is None:
-            return "Undefined"          # Jinja's default
-        assert isinstance(v, ast.Name), ast.dump(v)
-        return v.id
-
-    src_text, src_nat = undefined_name(calls["env"]), undefined_name(calls["native_env"])
-
-    m = importlib.import_module("rpft.parsers.common.cellparser")
-    cp = m.CellParser()
-    live_text, live_nat = cp.env.undefined, cp.native_env.undefined
-    # source and live objects must tell the same story
     import jinja2
 
-    def resolve(name):
-        return getattr(m, name, None) or getattr(jinja2, name)
-
-    assert resolve(src_text) is live_text, (src_text, live_text)
-    assert resolve(src_nat) is live_nat, (src_nat, live_nat)
-
-    def delim(call, key, default):
-        v = _kw(call, key)
-        return default if v is None else ast.literal_eval(v)
-
-    nat_start = delim(calls["native_env"], "variable_start_string", "{{")
-    nat_end = delim(calls["native_env"], "variable_end_string", "}}")
-    txt_start = delim(calls["env"], "variable_start_string", "{{")
-    txt_end = delim(calls["env"], "variable_end_string", "}}")
-    assert (cp.native_env.variable_start_string, cp.native_env.variable_end_string) == (nat_start, nat_end)
-    assert (cp.env.variable_start_string, cp.env.variable_end_string) == (txt_start, txt_end)
+    m = t1lib.load("rpft.parsers.common.cellparser")
+    cp = m.CellParser()
+    envs = {"text": cp.env, "native": cp.native_env}
+    delims = {k: (e.variable_start_string, e.variable_end_string) for k, e in envs.items()}
     blocks = [cp.env.block_start_string, cp.env.block_end_string, cp.native_env.block_start_string, cp.native_env.block_end_string]
+    pol, name, live = {}, {}, {}
+    for k, e in envs.items():
+        s, t = delims[k]
+        fails = _fails(lambda e=e, s=s, t=t: e.from_string(f"{s} t1_probe_nope {t}").render({"t1_defined": 1}))
+        pol[k] = _classify(e, fails)
+        name[k] = e.undefined.__name__
+        got, made = _undefined_object(e, s, t)
+        live[k] = type(got).__name__ if isinstance(got, jinja2.Undefined) else type(made).__name__
 
-    f_text, f_nat = _filters(init, "env"), _filters(init, "native_env")
-    builtin = set(jinja2.Environment().filters)
-    for env, names in ((cp.env, f_text), (cp.native_env, f_nat)):
-        custom = {k for k, v in env.filters.items() if k not in builtin or v is not jinja2.Environment().filters.get(k)}
-        assert custom == set(names), (custom, names)
+    builtin = jinja2.Environment().filters
+    custom = {k: sorted(f for f, v in e.filters.items() if f not in builtin or v is not builtin.get(f)) for k, e in envs.items()}
 
-    pas = _find_func(cls, "parse_as_string")
-    w_start, w_end, w_find, w_brace, w_off = _wrapper_literals(pas)
-    check = _native_check(mod_ast, pas)
+    cls_ast = _find_class(_parse("parsers/common/cellparser.py"), "CellParser")
+    w_start, w_end, w_find, w_brace, w_off = _wrapper_literals(cls_ast, t1lib.Resolver(m.CellParser, m))
+    check = native_undefined_check(cp)
 
     return (
         "inductive JinjaPolicy where\n  | strict | lenient | other\n  deriving DecidableEq, Repr\n"
-        f"def jinjaPolicy : JinjaPolicy := .{_classify(live_text)}\n"
-        f"def jinjaNativePolicy : JinjaPolicy := .{_classify(live_nat)}\n"
-        f"def jinjaUndefinedName : List Char := {lean_str(src_text)}\n"
-        f"def jinjaNativeUndefinedName : List Char := {lean_str(src_nat)}\n"
-        f"def jinjaUndefinedLiveName : List Char := {lean_str(live_text.__name__)}\n"
-        f"def jinjaNativeUndefinedLiveName : List Char := {lean_str(live_nat.__name__)}\n"
+        f"def jinjaPolicy : JinjaPolicy := .{pol['text']}\n"
+        f"def jinjaNativePolicy : JinjaPolicy := .{pol['native']}\n"
+        f"def jinjaUndefinedName : List Char := {lean_str(name['text'])}\n"
+        f"def jinjaNativeUndefinedName : List Char := {lean_str(name['native'])}\n"
+        f"def jinjaUndefinedLiveName : List Char := {lean_str(live['text'])}\n"
+        f"def jinjaNativeUndefinedLiveName : List Char := {lean_str(live['native'])}\n"
         f"def nativeUndefinedCheck : Bool := {'true' if check else 'false'}\n"
-        f"def textVarDelims : List (List Char) := {lean_str_list([txt_start, txt_end])}\n"
-        f"def nativeVarDelims : List (List Char) := {lean_str_list([nat_start, nat_end])}\n"
+        f"def textVarDelims : List (List Char) := {lean_str_list(delims['text'])}\n"
+        f"def nativeVarDelims : List (List Char) := {lean_str_list(delims['native'])}\n"
         f"def blockDelims : List (List Char) := {lean_str_list(blocks)}\n"
-        f"def jinjaFilters : List (List Char) := {lean_str_list(f_text)}\n"
-        f"def jinjaNativeFilters : List (List Char) := {lean_str_list(f_nat)}\n"
+        "-- sets, sorted\n"
+        f"def jinjaFilters : List (List Char) := {lean_str_list(custom['text'])}\n"
+        f"def jinjaNativeFilters : List (List Char) := {lean_str_list(custom['native'])}\n"
         f"def wrapperNativeStart : List Char := {lean_str(w_start)}\n"
         f"def wrapperNativeEnd : List Char := {lean_str(w_end)}\n"
         f"def wrapperNestedNeedle : List Char := {lean_str(w_find)}\n"
